@@ -257,7 +257,9 @@ impl Scheduler for PlanScheduler {
         }
         {
             let mut c = ctl(&self.ctl);
-            c.choices.push(choice);
+            if c.choices.len() < 400_000 {
+                c.choices.push(choice);
+            }
             if cur != Some(choice) {
                 c.switches += 1;
                 self.hash.u64(choice as u64);
@@ -327,7 +329,8 @@ pub struct SimStats {
     pub fairness_forced: u64,
 }
 
-pub const MAX_STEPS: usize = 3_000_000;
+/// about five times the scheduler steps of the largest legitimate run seen in the thorough tier
+pub const MAX_STEPS: usize = 1_200_000;
 
 /// Run `f` once as shuttle's main task under a `PlanScheduler`.
 pub fn run_sim<F>(cfg: &SchedCfg, f: F) -> (SimEnd, SimStats)
